@@ -66,6 +66,9 @@ def series_menu(n):
     tiny = out['walk'].copy()
     tiny[:, 1:5] *= 1e-6
     out['tiny'] = tiny
+    # an expensive symbol that moves in cents: the deviation is eight orders of magnitude below the price level
+    hf = build([1000000.1 + 0.01 * ((i * 7) % 5 - 2) for i in range(n)], 0.01)
+    out['huge-flat'] = hf
     return out
 
 
@@ -195,7 +198,7 @@ def _core_job(args):
         a_e, a_w = 2.0 / (p + 1), 1.0 / p
         n = nfix or min(12000, max(400, 3 * p + 3 * decay_steps(a_w) + 60))
         menu = series_menu(n)
-        names = list(menu) if not quick else ['constant', 'alternating', 'walk', 'gappy', 'huge', 'tiny', 'up']
+        names = list(menu) if not quick else ['constant', 'alternating', 'walk', 'gappy', 'huge', 'tiny', 'up', 'huge-flat']
         if nfix:
             names = ['walk', 'gappy']
         for sname in names:
@@ -210,11 +213,20 @@ def _core_job(args):
                 B.eq('wma', ta.wma(c, **kw), r_window(x, p, lambda w: float(np.dot(w, wts) / wts.sum())), case)
                 tri = np.array([min(i + 1, p - i) for i in range(p)], dtype=float)
                 B.eq('trima', ta.trima(c, **kw), r_window(x, p, lambda w: float(np.dot(w, tri) / tri.sum())), case)
-                sd = r_window(x, p, lambda w: float(np.sqrt(max(np.mean(w * w) - np.mean(w) ** 2, 0.0))))
+                sd = r_window(x, p, lambda w: float(np.sqrt(np.mean((w - np.mean(w)) ** 2))))      # two-pass: deviations from the mean first
                 scale = max(1.0, float(np.max(np.abs(x))))
+                sdtol = 1e-9 * scale + 1e-6 * np.nan_to_num(sd)       # what a careful float computation achieves at this price level
                 got_sd = ta.stddev(c, period=p, nbdev=1, source_type=st, sequential=True)
                 B.n += 1
-                ok = (np.isnan(got_sd) & np.isnan(sd)) | (np.abs(got_sd - sd) <= 1e-6 * scale)      # sqrt of a cancelling difference: absolute tolerance
+                ok = (np.isnan(got_sd) & np.isnan(sd)) | (np.abs(got_sd - sd) <= sdtol)
+                gv = ta.var(c, period=p, nbdev=1, source_type=st, sequential=True)
+                B.n += 1
+                okv = (np.isnan(gv) & np.isnan(sd)) | (np.abs(gv - sd ** 2) <= 2 * np.nan_to_num(sd) * sdtol + sdtol ** 2)
+                if not okv.all():
+                    i = int(np.where(~okv)[0][0])
+                    B.bad('definition', 'var', {}, case, 'var period %d index %d is %r, population variance is %r' % (p, i, float(gv[i]), float(sd[i] ** 2)))
+                if (gv[~np.isnan(gv)] < 0).any():
+                    B.bad('non-negative', 'var', {}, case, 'var negative: %r' % float(np.nanmin(gv)))
                 if not ok.all():
                     i = int(np.where(~ok)[0][0])
                     B.bad('definition', 'stddev', {}, case, 'stddev period %d index %d is %r, population standard deviation is %r' % (p, i, float(got_sd[i]), float(sd[i])))
@@ -272,7 +284,7 @@ def _core_job(args):
                 B.eq('bollinger_bands', bb.middleband, mid, case)
                 B.n += 1
                 for nm, got, want in (('upperband', bb.upperband, mid + 2 * sd), ('lowerband', bb.lowerband, mid - 1.5 * sd)):
-                    ok = (np.isnan(got) & np.isnan(want)) | (np.abs(got - want) <= 4e-6 * scale)
+                    ok = (np.isnan(got) & np.isnan(want)) | (np.abs(got - want) <= 4 * sdtol)
                     if not ok.all():
                         i = int(np.where(~ok)[0][0])
                         B.bad('definition', 'bollinger_bands', {'field': nm}, case, 'bollinger %s index %d is %r, sma +- k*std gives %r' % (nm, i, float(got[i]), float(want[i])))
@@ -341,6 +353,13 @@ def _core_job(args):
                 ss = ta.stoch(c, fastk_period=p, slowk_period=3, slowk_matype=0, slowd_period=3, slowd_matype=0, sequential=True)
                 B.eq('stoch', ss.k[p + 1:], d_ref[p + 1:], dict(case, field='k'), rel=1e-8)
                 B.eq('stoch', ss.d[p + 3:], r_window(d_ref, 3, np.mean)[p + 3:], dict(case, field='d'), rel=1e-8)
+                # the same lines smoothed by a recursive average (EMA): defined from where the raw %K is defined, finite, in range
+                se = ta.stoch(c, fastk_period=p, slowk_period=3, slowk_matype=1, slowd_period=3, slowd_matype=1, sequential=True)
+                B.n += 1
+                tail = np.asarray(se.k, dtype=float)[p + 40:]
+                if np.isfinite(kk[p - 1:]).all() and (not len(tail) or not np.isfinite(tail).all() or tail.min() < -1e-7 or tail.max() > 100 + 1e-7):
+                    B.bad('definition', 'stoch', {'smoothing': 'ema'}, dict(case, field='k', matype=1),
+                          'stoch with EMA smoothing: %%K is not a finite value in [0, 100] %d candles after the raw %%K starts (first values %r)' % (40, tail[:3].tolist()))
             # money flow index
             raw = tp * v
             pos = np.zeros(len(c))
@@ -452,6 +471,24 @@ def _selector_job(args):
                         B.bad('selector', 'ma', {'matype': k, 'sequential': False}, case, 'ma(matype=%d, sequential=False) = %r, %s(sequential=False) = %r' % (k, g1, name, w1))
                 except Exception:
                     pass
+    # the same comparison on a plain 1-D series (what composed indicators hand to the selector), longer than the warm-up window
+    x1 = series_menu(400)['walk'][:, 2].copy()
+    for k, name in sorted(MA_TABLE.items()):
+        if name in NO_PERIOD or name in ('vwma', 'vwap', 'vpwma'):
+            continue          # need the candle matrix
+        f = getattr(ta, name)
+        for p in periods:
+            for seq in (True, False):
+                case = {'series': 'walk-1d', 'params': {'matype': k, 'period': p, 'sequential': seq}}
+                try:
+                    w = np.asarray(f(x1, p, sequential=seq), dtype=float)
+                    g = np.asarray(ta.ma(x1, period=p, matype=k, sequential=seq), dtype=float)
+                except Exception:
+                    continue
+                B.n += 1
+                if w.shape != g.shape or not ((np.isnan(w) & np.isnan(g)) | (w == g)).all():
+                    B.bad('selector', 'ma', {'matype': k, 'input': '1-D', 'sequential': seq}, case,
+                          'on a 1-D series of 400 values ma(period=%d, matype=%d, sequential=%s) differs from %s(period=%d, sequential=%s)' % (p, k, seq, name, p, seq))
     for k in (7, 8, 19, 40, -1):
         B.n += 1
         try:
